@@ -256,46 +256,60 @@ def lst1(units, R):
 
 
 def lst5(units, R):
-    """Sorting relinks, it never edits: sort_list stores only to next/prev of list nodes, calls only itself and
-    the key comparator, and sort_object's only other effect is the child store checked by LST1."""
+    """Sorting relinks, it never edits: sort_list (and the static helpers it may be split into) stores only to next/prev of
+    list nodes, calls only itself, its helpers and the key comparator, and sort_object's only other effect is the child
+    store checked by LST1."""
     u = units['cJSON_Utils.c']
-    fn = u.fn('sort_list')
+    root = u.fn('sort_list')
+    members = [root]
+    seen = {root.name}
+    work = [root]
+    while work:
+        f0 = work.pop()
+        for c in f0.calls():
+            cn = callee_name(c)
+            h = u.functions.get(cn)
+            if h is not None and h.static and cn not in seen and cn != 'compare_strings':
+                seen.add(cn)
+                members.append(h)
+                work.append(h)
     n = 0
-    for a in assignments(fn):
-        l = strip_casts(a['l'])
-        if l.get('k') == 'mem':
-            n += 1
-            ok = l['f'] in ('next', 'prev')
-            R.ob('LST5', fn, a, 'store %s touches link fields only' % expr_str(a)[:60], ok,
-                 'link field %s' % l['f'] if ok else 'sorting modifies member field %s (keys/values/subtrees must stay untouched)' % l['f'],
-                 key='store:' + l['f'])
-        elif l.get('k') in ('un', 'idx'):
-            n += 1
-            # a pointer-to-link cursor (cJSON **link = &result; ... link = &x->next) designates a local or a link field
-            ok = False
-            why = 'sorting writes through a raw pointer'
-            inner = strip_casts(l['e']) if l.get('k') == 'un' and l['op'] == '*' else None
-            if inner is not None and inner.get('k') == 'ref' and inner.get('dk') == 'local':
-                targets = [strip_casts(x['r']) for x in assignments(fn) if is_ref(x['l']) and strip_casts(x['l'])['d'] == inner['d']]
-                targets += [strip_casts(d['init']) for d in fn.locals() if d['d'] == inner['d'] and 'init' in d and not is_null_const(d['init'])]
-                targets = [t for t in targets if not is_null_const(t)]
+    for fn in members:
+        for a in assignments(fn):
+            l = strip_casts(a['l'])
+            if l.get('k') == 'mem':
+                n += 1
+                ok = l['f'] in ('next', 'prev')
+                R.ob('LST5', fn, a, 'store %s touches link fields only' % expr_str(a)[:60], ok,
+                     'link field %s' % l['f'] if ok else 'sorting modifies member field %s (keys/values/subtrees must stay untouched)' % l['f'],
+                     key='store:' + l['f'])
+            elif l.get('k') in ('un', 'idx'):
+                n += 1
+                # a pointer-to-link cursor (cJSON **link = &result; ... link = &x->next) designates a local or a link field
+                ok = False
+                why = 'sorting writes through a raw pointer'
+                inner = strip_casts(l['e']) if l.get('k') == 'un' and l['op'] == '*' else None
+                if inner is not None and inner.get('k') == 'ref' and inner.get('dk') == 'local':
+                    targets = [strip_casts(x['r']) for x in assignments(fn) if is_ref(x['l']) and strip_casts(x['l'])['d'] == inner['d']]
+                    targets += [strip_casts(d['init']) for d in fn.locals() if d['d'] == inner['d'] and 'init' in d and not is_null_const(d['init'])]
+                    targets = [t for t in targets if not is_null_const(t)]
 
-                def link_address(t):
-                    if t.get('k') != 'un' or t['op'] != '&':
-                        return False
-                    x = strip_casts(t['e'])
-                    return (x.get('k') == 'ref' and x.get('dk') == 'local') or (x.get('k') == 'mem' and x['f'] in ('next', 'prev'))
-                if targets and all(link_address(t) for t in targets):
-                    ok = True
-                    why = '%s only ever holds the address of a local or of a next/prev field' % inner['n']
-            R.ob('LST5', fn, a, 'store through pointer %s' % expr_str(a)[:60], ok, why, key='rawstore:' + expr_str(l))
-    for c in fn.calls():
-        cn = callee_name(c)
-        n += 1
-        ok = cn in ('sort_list', 'compare_strings', 'strcmp')
-        R.ob('LST5', fn, c, 'call %s' % (cn or expr_str(c['fn'])), ok,
-             'recursion / key comparator' if ok else 'sorting calls %s (may allocate, release or edit nodes)' % cn,
-             key='call:%s' % cn)
+                    def link_address(t):
+                        if t.get('k') != 'un' or t['op'] != '&':
+                            return False
+                        x = strip_casts(t['e'])
+                        return (x.get('k') == 'ref' and x.get('dk') == 'local') or (x.get('k') == 'mem' and x['f'] in ('next', 'prev'))
+                    if targets and all(link_address(t) for t in targets):
+                        ok = True
+                        why = '%s only ever holds the address of a local or of a next/prev field' % inner['n']
+                R.ob('LST5', fn, a, 'store through pointer %s' % expr_str(a)[:60], ok, why, key='rawstore:' + expr_str(l))
+        for c in fn.calls():
+            cn = callee_name(c)
+            n += 1
+            ok = cn in ('compare_strings', 'strcmp') or cn in seen
+            R.ob('LST5', fn, c, 'call %s' % (cn or expr_str(c['fn'])), ok,
+                 'recursion / helper of the sorter / key comparator' if ok else 'sorting calls %s (may allocate, release or edit nodes)' % cn,
+                 key='call:%s' % cn)
     so = u.fn('sort_object')
     for c in so.calls():
         cn = callee_name(c)
